@@ -211,6 +211,17 @@ def schema_graph(rnd, bnodes=True, inverse_safe=False):
                 if rng[0] == "lit" or (litmix and rnd.random() < .5):
                     for _ in range(rnd.choice([1, 1, 2])):
                         T.add((n, p, _lit(rnd)))
+    # a node may link to itself: such a triple is an outgoing and an incoming arc of the same node
+    selfp = sorted({(c, p) for (c2, p), c in used_as_range.items() if c2 == c})
+    if selfp and rnd.random() < .7:
+        c, p = rnd.choice(selfp)
+        kinds = {o[0] for s, pp, o in T if pp == p and s in inst[c]}
+        # preferably a node that another instance already links to: its self-link is then one of several incoming arcs
+        pointed = sorted({o for s, pp, o in T if pp == p and s in inst[c] and o in inst[c] and o != s})
+        linked = pointed or [n for n in inst[c] if any(s == n and pp == p for s, pp, _o in T)]
+        for n in rnd.sample(linked, min(len(linked), rnd.randint(1, 2))):
+            if n[0] in kinds:
+                T.add((n, p, n))
     T = sorted(T, key=str)
     rnd.shuffle(T)
     return with_homographs(T, rnd)
